@@ -142,6 +142,8 @@ type Tr struct {
 	addrSeen      map[string]bool
 	pure          int
 	inCallback    int
+	epochA        map[int]string    // heap epoch -> allocation counter at its start
+	heapA         map[string]string // heap array term -> allocation counter when it was written
 	closureBindings []Val
 	callTexts     map[token.Pos]string
 }
@@ -258,6 +260,31 @@ func (tr *Tr) addr(structKey, field, base string) string {
 	return t
 }
 
+// noteEpoch records the allocation counter at the start of a heap epoch (after a havoc): everything
+// stored in a heap array of that epoch that has not been written since is below it.
+func (tr *Tr) noteEpoch(h *Heap, a string) string {
+	if _, ok := tr.epochA[h.base]; !ok {
+		tr.epochA[h.base] = a
+	}
+	return a
+}
+
+// loadBound: an upper bound for references read from heap key `key`: the allocation counter at the
+// time of the last write to the key (everything in it was allocated before that), which is what rules
+// out that an object allocated later is already stored there.
+func (tr *Tr) loadBound(fr *frame, key string) string {
+	if t, ok := fr.heap.m[key]; ok {
+		if a, ok := tr.heapA[t]; ok {
+			return a
+		}
+		return tr.curA(fr)
+	}
+	if a, ok := tr.epochA[fr.heap.base]; ok {
+		return a
+	}
+	return tr.curA(fr)
+}
+
 // preExisting: reference r denotes memory that existed when the function was entered (A0 = entry
 // allocation counter). Member addresses are negative; they are as old as the object that owns them.
 func (tr *Tr) preExisting(r, A0 string) string {
@@ -312,9 +339,11 @@ func (tr *Tr) storePlace(pl *Place, h *Heap, v string) {
 	case plField, plCell, plArr:
 		old := tr.C.hget(h, pl.key)
 		h.m[pl.key] = tr.define(tr.C.heapSort[pl.key], sto(old, pl.ref, v), pl.key)
+		tr.heapA[h.m[pl.key]] = tr.C.hget(h, "ALLOC")
 	case plElem:
 		old := tr.C.hget(h, pl.key)
 		h.m[pl.key] = tr.define(tr.C.heapSort[pl.key], sto(old, pl.ref, sto(sel(old, pl.ref), pl.idx, v)), pl.key)
+		tr.heapA[h.m[pl.key]] = tr.C.hget(h, "ALLOC")
 	case plObj:
 		st := pl.ty.Underlying().(*types.Struct)
 		srt := tr.C.structSort(pl.ty, st)
@@ -505,7 +534,7 @@ func (g *Global) genVC(fn *ssa.Function, contract *Contract) (vc *FnVC) {
 func (g *Global) genVCpass(fn *ssa.Function, contract *Contract, C *Ctx) (vc *FnVC) {
 	storeDefs = map[string][2]string{}
 	vc = &FnVC{Fn: fn, Contract: contract, Ctx: C, Inlined: map[string]int{}, Unknown: map[string]int{}, Abstract: map[string]int{}, UsedContr: map[string]bool{}}
-	tr := &Tr{G: g, C: C, vc: vc, sliceConstLen: map[string]int64{}, addrSeen: map[string]bool{}}
+	tr := &Tr{G: g, C: C, vc: vc, sliceConstLen: map[string]int64{}, addrSeen: map[string]bool{}, epochA: map[int]string{}, heapA: map[string]string{}}
 	defer func() {
 		if r := recover(); r != nil {
 			if ve, ok := r.(vcErr); ok {
@@ -525,6 +554,7 @@ func (g *Global) genVCpass(fn *ssa.Function, contract *Contract, C *Ctx) (vc *Fn
 	tr.raw("(assert (>= A0 1))")
 	C.regHeap("ALLOC", "Int")
 	h0.m["ALLOC"] = A0
+	tr.epochA[h0.base] = A0
 	fr := tr.newFrame(fn, "", 0, nil)
 	fr.top = true
 	tr.topFrame = fr
@@ -1096,7 +1126,7 @@ func (tr *Tr) loopHeader(fr *frame, li *loopInfo) {
 		fr.heap = fr.heap.havocAll()
 		newA := tr.declareConst("Int", "A_loop")
 		tr.assume("true", app(">=", newA, oldA))
-		fr.heap.m["ALLOC"] = newA
+		fr.heap.m["ALLOC"] = tr.noteEpoch(fr.heap, newA)
 		tr.vc.Abstract["loop-havoc-all"]++
 	} else {
 		var ks []string
@@ -1109,7 +1139,7 @@ func (tr *Tr) loopHeader(fr *frame, li *loopInfo) {
 				oldA := tr.C.hget(fr.heap, "ALLOC")
 				newA := tr.declareConst("Int", "A_loop")
 				tr.assume("true", app(">=", newA, oldA))
-				fr.heap.m["ALLOC"] = newA
+				fr.heap.m["ALLOC"] = tr.noteEpoch(fr.heap, newA)
 				continue
 			}
 			fr.heap.m[k] = tr.declareConst(tr.C.heapSort[k], k+"_loop")
